@@ -107,6 +107,24 @@ CHECKS = {
             'Exact equality of standard forms; RNG state compared via numpy.random.get_state/random.getstate; the cross-process part '
             'compares sha1 digests of dense standard forms from 4 fresh interpreters.',
             'DESIGN.md section 4 / C19'),
+    'C03': ('property-based testing with an adversarial-distribution oracle: primal moment LP over support atoms (scipy HiGHS), every '
+            'witness distribution re-verified against the declared ambiguity set by direct arithmetic, expectations by NumPy',
+            'Generated-input search over dro models (1-4 scenarios, event-wise static/affine decisions via random adapt() sequences, '
+            'point/box/norm/polytope/ellipsoid/lifted supports, expectation sets on events and sub-events, fixed/box/1-norm/2-norm/KL/'
+            'free probability sets, E(affine)/E(maxof)/E(minof) objectives, robust rows): the returned rule evaluated under the worst '
+            'distribution found must not beat model.get(), and rows without E must hold at each scenario\'s worst realisation. '
+            'Sampling, not proof.',
+            'Inner LP is exact for polytope supports and polyhedral probability sets; balls and KL/2-norm sets are attacked with '
+            'finitely many atoms / candidate probability vectors (sound, weaker); tolerance 1e-6 / 5e-5 relative.',
+            'DESIGN.md section 4 / C03'),
+    'C04': ('property-based differential testing against an independent inf-sup solver: outer cutting planes over the decisions with the '
+            'exact primal moment LP as inner problem; plus direct sample-average LP and ro-front-end oracles for the two special cases',
+            'Generated-input search over the statement\'s domain (polytope supports, polyhedral expectation/probability sets, '
+            'piecewise-affine integrands, event-wise affine adaptation); both directions (unsafe / conservative) are violations. '
+            'Sampling, not proof.',
+            'Reference trusted: vertex enumeration (<= 40 half-spaces, dimension <= 4) + scipy HiGHS; non-convergence and artificial '
+            'bounds are inconclusive; tolerance 1e-6 relative.',
+            'DESIGN.md section 4 / C04'),
 }
 
 NOT_YET = 'check not built yet in this round (see DESIGN.md section 4 for the planned generator and oracle)'
